@@ -100,13 +100,6 @@ Inductive xact :=
 (* ghost state: the entry of every thread, and the refreshes in the order of their writes *)
 Record gst := { g_x : xstate; g_ents : list nat; g_log : list refresh }.
 
-Definition spawn_thread (x : xstate) (sp : spawn) (e : nat) : xstate :=
-  {| x_sys := {| s_threads := s_threads (x_sys x) ++ [{| t_pc := PAt e; t_r := 0; t_w := false |}];
-                 s_lock := s_lock (x_sys x) |};
-     x_cfg := x_cfg x;
-     x_info := x_info x ++ [{| ti_sp := sp; ti_open := false; ti_local := None;
-                               ti_res := match sp_kind sp with KReg | KRefresh => RDone | _ => RAny end |}] |}.
-
 Section Data.
   Variables (url : bool) (mprog : list mstep) (g : prog) (init : cfgstate).
 
